@@ -114,3 +114,62 @@ func Unicode() {
 	t := bytes.TrimSpace([]byte{c})
 	verifrt.Assert((len(t) == 0) == (c == ' '), "trimspace-symbolic")
 }
+
+type wrapAlias struct {
+	inner alias
+	tags  []byte
+}
+
+type alias struct {
+	h [4]byte
+	n int
+}
+
+// Alias: append writes in place while the capacity suffices, so pointers and
+// sub-slices taken earlier observe the new elements; once the capacity is
+// exceeded a new backing array is used and they do not. (The shape of
+// wtxmgr's rangeBlockTransactions reusing its details slice and a caller
+// keeping &details[i].)
+func Alias() {
+	s := make([]alias, 0, 2)
+	s = append(s, alias{n: 1})
+	p := &s[0]
+	keep := s
+	s = s[:0]
+	s = append(s, alias{n: 2})
+	verifrt.Assert(p.n == 2, "append-within-capacity-writes-in-place")
+	// ... also seen through a pointer to a FIELD of the element, and of a
+	// nested struct inside it
+	w := make([]wrapAlias, 0, 2)
+	w = append(w, wrapAlias{inner: alias{h: [4]byte{1}, n: 1}})
+	ph, pn, pi := &w[0].inner.h, &w[0].inner.n, &w[0].inner
+	w = w[:0]
+	nv := &wrapAlias{inner: alias{h: [4]byte{2}, n: 2}}
+	w = append(w, *nv)
+	verifrt.Assert(ph[0] == 2 && *pn == 2 && pi.n == 2, "field-pointers-see-the-element-overwritten-in-place")
+	verifrt.Assert(keep[0].n == 2, "sub-slice-shares-backing-array")
+	s = append(s, alias{n: 3})
+	s = append(s, alias{n: 4}) // exceeds the capacity
+	s[0].n = 9
+	verifrt.Assert(p.n == 2, "append-beyond-capacity-copies")
+	// the same through a loop that reuses the slice per round
+	var ptrs []*alias
+	buf := make([]alias, 0, 4)
+	for round := 0; round < 3; round++ {
+		buf = buf[:0]
+		buf = append(buf, alias{n: 10 + round})
+		ptrs = append(ptrs, &buf[0])
+	}
+	verifrt.Assert(ptrs[0].n == 12 && ptrs[1].n == 12 && ptrs[2].n == 12, "reused-buffer-aliases-earlier-rounds")
+	// copying first (what a careful caller does) keeps the values apart
+	var kept [][]alias
+	for round := 0; round < 2; round++ {
+		buf = buf[:0]
+		buf = append(buf, alias{n: 20 + round})
+		c := make([]alias, len(buf))
+		copy(c, buf)
+		kept = append(kept, c)
+	}
+	verifrt.Assert(kept[0][0].n == 20 && kept[1][0].n == 21, "copied-rounds-stay-apart")
+	verifrt.Reach("end")
+}
